@@ -7,6 +7,8 @@ SPECIAL = [
     ("K9", "union u switch (int v) { case 1: int a; };"),
     ("K9", "typedef int t; struct s { t a; t xs<>; };"),
     ("K9", "const n = 3; struct s { int a[n]; };"),
+    ("K9", "typedef unsigned int uint; union u switch (int uint) { case 1: int a; };"),       # the switch variable is a `let` binding too
+    ("K9", "const LIMIT = 4; union u switch (int LIMIT) { case 1: int a; };"),
     ("ok", "const c = 1; enum e { A = 0, B = 1 }; union u switch (unsigned int s) { case A: int a; case B: int b; };"),   # K14: compiles (and decodes wrongly: C06)
     ("K13", "const v_1 = 2; union u switch (int d) { case 1: int a; case v_1: int b; };"),
     ("ok", "typedef unsigned int alias; enum thing { ONE = 1, TWO = 2 }; union u switch (alias s) { case ONE: unsigned int a; case TWO: void; };"),
